@@ -78,6 +78,7 @@ type kvSession struct {
 	readAfterUnflushedNewPut bool
 	dirty                    map[string]string // bucket/key -> "del" | "newput" | "put"
 	skipped                  int
+	recreated                bool
 }
 
 func newKVSession(name string) (*kvSession, error) {
@@ -125,7 +126,12 @@ func (s *kvSession) apply(step int, op KVOp) error {
 	switch op.Op {
 	case "create":
 		if s.model.HasBucket(bn) {
-			s.skipped++ // domain: a bucket is created at most once while it exists
+			// creating a bucket that exists (committed, or created earlier in
+			// this session) must be refused and must not touch anything
+			if _, err := s.be.DB.CreateBucket([]byte(bn)); err == nil {
+				return fmt.Errorf("[%s] step %d: CreateBucket(%q) of an existing bucket (committed=%v) succeeded; Bolt refuses it", s.be.Name, step, bn, s.model.Committed[bn] != nil)
+			}
+			s.recreated = true
 			return nil
 		}
 		if _, err := s.be.DB.CreateBucket([]byte(bn)); err != nil {
@@ -217,6 +223,9 @@ func runKVOn(backend string, c C17Case, cs *kit.CaseStats) (err error) {
 		cs.Class("read-after-unflushed-new-put")
 		cs.NonTrivial()
 	}
+	if s.recreated {
+		cs.Class("create-of-existing-bucket-refused")
+	}
 	return nil
 }
 
@@ -233,7 +242,7 @@ func runC17(c C17Case, cs *kit.CaseStats) error {
 }
 
 var c17Assumptions = []string{
-	"domain: a bucket is created at most once while it exists; only created buckets are written; values are non-empty; key/value slices are not mutated after being handed over",
+	"domain: only created buckets are written; creating an existing bucket is expected to be refused without effect (Bolt's behaviour); values are non-empty; key/value slices are not mutated after being handed over",
 	"crash model for 'reopen': everything not flushed is lost (Cancel, close without committing, open again); torn commits inside bbolt are out of scope",
 	"bbolt is opened with NoSync (durability to the OS, not the disk)",
 }
